@@ -756,6 +756,17 @@ func oracle(c core.Case, out []string) []core.Finding {
 		}
 		return ""
 	}
+	scheduled := map[string]bool{}
+	tws := true
+	defer func() {
+		statMtx.Lock()
+		if tws {
+			statCount["oracle-cases-with-only-scheduled-or-round0-timeouts"]++
+		} else {
+			statCount["oracle-cases-with-unscheduled-timeouts"]++
+		}
+		statMtx.Unlock()
+	}()
 	for i, op := range c.Ops {
 		if i >= len(out) {
 			break
@@ -764,6 +775,21 @@ func oracle(c core.Case, out []string) []core.Finding {
 		f := strings.Fields(op)
 		if len(f) == 0 {
 			continue
+		}
+		// the ticker discipline of Props.C02.scheduled_timeouts_suffice, checked on the implementation's
+		// outputs: a delivered timeout was scheduled before (to(r,step) among the outputs) or is for round 0
+		if f[0] == "timeout" && m["r"] != "0" && !scheduled[m["r"]+"/"+m["s"]] {
+			tws = false
+		}
+		if j := strings.Index(out[i], " |"); j >= 0 {
+			for _, e := range strings.Fields(out[i][j+2:]) {
+				if strings.HasPrefix(e, "to(") && strings.HasSuffix(e, ")") {
+					a := strings.Split(e[3:len(e)-1], ",")
+					if len(a) == 2 {
+						scheduled[a[0]+"/"+a[1]] = true
+					}
+				}
+			}
 		}
 		if f[0] == "cfg" {
 			if out[i] != "ok" {
